@@ -581,7 +581,7 @@ class CorruptSim(Simulator):
     assumptions = ["value domain of valgen", "top-level malformedness is judged by the independent wire parser",
                    "agreement with the reference decoder is recorded (coverage.counters ref:*), not enforced"]
     tiers = {
-        "quick": dict(runs=480, chunk=6, wall_cap=300, det_sample=18),
+        "quick": dict(runs=800, chunk=5, wall_cap=300, det_sample=20),
         "thorough": dict(runs=16000, chunk=20, wall_cap=1500, det_sample=400),
     }
     expected_probes = ["fault:wire-type-substitution", "fault:group", "fault:field-number-0",
